@@ -28,6 +28,8 @@ ASSUMPTIONS = [
 
 def gen_case(rng: random.Random, tier: str) -> dict:
     g = gen.gen_dag(rng)
+    if rng.random() < 0.4:
+        gen.add_fn_renames(rng, g)  # renamed function inputs: fresh names, parallel swaps, rotations
     inp = gen.gen_inputs(rng, g)
     produced = [o for nd in g["nodes"] for o in nd["outs"]]
     select = None
@@ -52,7 +54,7 @@ def _rerun_allowed(g: dict) -> set[str]:
     allowed: set[str] = set()
     for nd in g["nodes"]:
         for p in nd["params"]:
-            src = producer.get(p["name"])
+            src = producer.get(gen.gname(nd, p))
             if src is None:
                 continue
             if "default" in p or src in allowed:
@@ -129,7 +131,7 @@ def run_case(doc: dict) -> dict:
         if len(nd["outs"]) > 1:
             multi = True
         for p in nd["params"]:
-            consumers[p["name"]] = consumers.get(p["name"], 0) + 1
+            consumers[gen.gname(nd, p)] = consumers.get(gen.gname(nd, p), 0) + 1
     if any(v > 1 for v in consumers.values()):
         multi = True
     peak = 0
@@ -203,6 +205,8 @@ def shrink_candidates(doc: dict):
         c["select"] = None
         yield c
     for nd_i, nd in enumerate(g["nodes"]):
+        if nd.get("rename_inputs"):
+            continue  # (parameters of a renamed node are not dropped one by one: the rename map would dangle)
         for p_i, p in enumerate(nd["params"]):
             c = copy.deepcopy(doc)
             del c["graph"]["nodes"][nd_i]["params"][p_i]
@@ -249,7 +253,7 @@ def signature(doc: dict, cls: str, detail) -> str:
 
 
 def sample_repr(doc: dict, res: dict):
-    return {"nodes": [[n["name"], [p["name"] + ("=d" if "default" in p else "") for p in n["params"]], n["outs"]] for n in doc["graph"]["nodes"]],
+    return {"nodes": [[n["name"], [p["name"] + ("=d" if "default" in p else "") for p in n["params"]], n["outs"]] + ([{"rename_inputs": n["rename_inputs"]}] if n.get("rename_inputs") else []) for n in doc["graph"]["nodes"]],
             "order": doc["graph"]["order"], "inputs": doc["inputs"], "select": doc.get("select"),
             "async": [{"mode": a["schedule"]["mode"], "k": a["max_concurrency"], "shuffle": a["shuffle"] is not None} for a in doc["async"]]}
 
